@@ -8,6 +8,7 @@ CONSTANTS
   Wipeouts = FALSE
   Collide = FALSE
   Times = {1, 2}
+  KeepGoing = {FALSE}
   Design = "atomic"
 SPECIFICATION Spec
 VIEW view
